@@ -8,7 +8,7 @@ import (
 // C13 — only connections from configured peers to the configured address are served.
 func init() {
 	register(&Property{ID: "C13", Run: runC13,
-		Rule: "per run: 1-4 peers over IPv4 and IPv6, with/without WithLocalAddress, active/passive, three local addresses, specific and wildcard listeners; the target peer is put into a drawn phase (nothing up, outbound attempt pending, outbound OpenSent/OpenConfirm, inbound handshake in progress, Established over inbound/outbound, held down, just deleted); then 1-3 inbound connections with (source, destination, listener) drawn from configured and unconfigured sources x all local addresses are offered at quiescent points; non-trivial when a probe connection was accepted by a listener and its fate observed; distinct = distinct (peer set shape, phase, source class, destination match, admitted?)"})
+		Rule: "per run: 1-4 peers over IPv4 and IPv6, with/without WithLocalAddress, active/passive, three local addresses per family (one extends the text of another), specific and wildcard listeners; the target peer is put into a drawn phase (nothing up, outbound attempt pending, outbound OpenSent/OpenConfirm, inbound handshake in progress, Established over inbound/outbound, held down, just deleted); then 1-3 inbound connections with (source, destination, listener) drawn from configured and unconfigured sources x all local addresses are offered at quiescent points; non-trivial when a probe connection was accepted by a listener and its fate observed; distinct = distinct (peer set shape, phase, source class, destination match, admitted?)"})
 }
 
 type c13peer struct {
@@ -24,8 +24,9 @@ func runC13(w *World) {
 	if e == nil {
 		return
 	}
-	locals4 := []string{"10.0.0.5", "10.0.0.6"}
-	locals6 := []string{"fd00::5", "fd00::6"}
+	// the third address of each family extends the text of the first: admission compares addresses, not strings
+	locals4 := []string{"10.0.0.5", "10.0.0.6", "10.0.0.55"}
+	locals6 := []string{"fd00::5", "fd00::6", "fd00::55"}
 	np := 1 + w.Draw(4, "npeers")
 	var peers []*c13peer
 	for k := 0; k < np; k++ {
@@ -38,9 +39,9 @@ func runC13(w *World) {
 			Passive: w.Chance(1, 2, "passive"), Port: Pick(w, "port", 0, 0, 1179, 179)} // (the port is where corebgp dials; admission must not look at it)
 		if w.Chance(1, 2, "localaddr") {
 			if v6 {
-				spec.LocalAddr = locals6[w.Draw(2, "la6")]
+				spec.LocalAddr = locals6[w.Draw(len(locals6), "la6")]
 			} else {
-				spec.LocalAddr = locals4[w.Draw(2, "la4")]
+				spec.LocalAddr = locals4[w.Draw(len(locals4), "la4")]
 			}
 		}
 		h := e.NewPeer(spec, "10.0.0.9", 90)
@@ -255,9 +256,9 @@ func runC13(w *World) {
 		v6src := len(src) > 2 && (src[:2] == "fd" || src[:2] == "::")
 		var dst string
 		if v6src {
-			dst = locals6[w.Draw(2, "dst6")]
+			dst = locals6[w.Draw(len(locals6), "dst6")]
 		} else {
-			dst = locals4[w.Draw(2, "dst4")]
+			dst = locals4[w.Draw(len(locals4), "dst4")]
 		}
 		// expected admission
 		admit := false
